@@ -88,12 +88,19 @@ class Ctx:
         return cases
 
     # ---- direction A
-    def replay(self, cases, profiles=("debug", "release"), extra=None, source=None):
+    def replay(self, cases, profiles=("debug", "release"), extra=None, source=None, events=False):
+        """events=True: the hook-event stream of every replayed call (first profile) is also validated by TLC
+        against the small-step machine (an operand evaluated twice or needlessly is a rejected trace even when the
+        result is unchanged)."""
         bins = self.bins(profiles)
         first = True
+        evfile = cases.replace(".ndjson", "") + ".events.ndjson" if events else None
         for prof in profiles:
             out = cases.replace(".ndjson", "") + ".replay-%s.ndjson" % prof
-            summary, mism = vcheck.replay(bins[prof], cases, out, extra=extra)
+            ex = list(extra or [])
+            if events and first:
+                ex += ["--events", evfile]
+            summary, mism = vcheck.replay(bins[prof], cases, out, extra=ex)
             self.evaluations += summary["cases"]
             self.validated += summary["matched"]
             for r in mism:
@@ -110,6 +117,8 @@ class Ctx:
                             self.nontrivial.add(hashlib.md5((json.dumps(c["rule"], sort_keys=True) + json.dumps(c["data"], sort_keys=True) + json.dumps(c.get("fn", ""))).encode()).digest())
             log("  replay %s [%s]: %d cases, %d agree, %d mismatch, %d crash, %d hang" % (
                 os.path.basename(cases), summary["profile"], summary["cases"], summary["matched"], summary["mismatched"], summary["crashed"], summary["hung"]))
+        if events:
+            self.validate_events(evfile, source or os.path.basename(cases))
 
     # ---- direction B: hook-event streams validated by TLC against Machine (spec/tv/TV_Events.tla)
     def validate_events(self, events_path, source, sc=None, max_rejects=25):
@@ -249,7 +258,7 @@ def plan_C06(ctx):
     ctx.rule = ("TLC enumerates every corpus value (V6: 43 literals, E6: 47 operator expressions) x 14 deciding positions x 3 ways of reaching "
                 "the value; one case per distinct TLC state; a case is non-trivial when its outcome depends on the truthiness decision (all are)")
     cases = ctx.mc("MC_C06")
-    ctx.replay(cases)
+    ctx.replay(cases, events=True)
     ctx.records("ctl")
     ctx.exhaustive = True   # the TLC-enumerated family; the random records on top of it are sampled
 
@@ -259,7 +268,7 @@ def plan_C02(ctx):
                 "12 near-miss transforms of each of the 35 operator names computed in the specification, dispatch of all 35 names, and every literal "
                 "nested as an operand/branch result; one case per distinct TLC state")
     cases = ctx.mc("MC_C02")
-    ctx.replay(cases)
+    ctx.replay(cases, events=True)
     ctx.records("mix")
     ctx.exhaustive = True   # the TLC-enumerated family; the random records on top of it are sampled
 
@@ -269,7 +278,7 @@ def plan_C03(ctx):
                 "operator with 20 non-array operands (checked as a relation between the two spellings in the code), and 8 placements of an "
                 "arity error (selected/unselected branch, eager parent, after the deciding operand, default expression); one case per TLC state")
     cases = ctx.mc("MC_C03")
-    ctx.replay(cases)
+    ctx.replay(cases, events=True)
     ctx.records("mix")
     ctx.exhaustive = True   # the TLC-enumerated family; the random records on top of it are sampled
 
@@ -317,7 +326,7 @@ def plan_C11(ctx):
                 "(escaped paths, integer keys incl. all 64-bit boundaries, negative indices, null, \"\", ill-typed) x 6 forms (with/without default, bracket-less, "
                 "operand-less, computed key, data extended with an unnamed sibling) x 5 defaults; one case per TLC state; cases whose key the statement leaves open are drift-only")
     cases = ctx.mc("MC_C11")
-    ctx.replay(cases)
+    ctx.replay(cases, events=True)
     ctx.records("data11")
     ctx.exhaustive = True   # the TLC-enumerated family; the random records on top of it are sampled
 
@@ -337,7 +346,7 @@ def plan_C13(ctx):
                 "outer reference, non-commutative cat, nested map/filter/reduce, log probes, poisons) x 2 outer data for map and filter, and x 14 reducer expressions x 8 "
                 "initial values for reduce; values, Ok/Err and the exact log sequence are compared; one case per TLC state")
     cases = ctx.mc("MC_C13")
-    ctx.replay(cases)
+    ctx.replay(cases, events=True)
     ctx.machine("C13")
     ctx.records("arr")
     ctx.exhaustive = True   # the TLC-enumerated family; the random records on top of it are sampled
@@ -348,7 +357,7 @@ def plan_C14(ctx):
                 "literal and computed strings over ASCII/2-/3-/4-byte characters; null; empty; non-collections) x 14 predicates x 3 data; values, Ok/Err and the exact "
                 "log sequence (= which elements were evaluated) are compared; one case per TLC state")
     cases = ctx.mc("MC_C14")
-    ctx.replay(cases)
+    ctx.replay(cases, events=True)
     ctx.machine("C14")
     ctx.records("arr")
     ctx.exhaustive = True   # the TLC-enumerated family; the random records on top of it are sampled
@@ -359,7 +368,7 @@ def plan_C15(ctx):
                 "37 needles x 29 haystacks (number spellings 1/1.0/1e0/0/-0.0, nested containers, objects with reordered keys, non-ASCII substrings, ill-typed pairs), "
                 "as literals and through var; one case per TLC state" % (4 if ctx.deep else 3))
     cases = ctx.mc("MC_C15")
-    ctx.replay(cases)
+    ctx.replay(cases, events=True)
     ctx.records("arr")
     ctx.exhaustive = True   # the TLC-enumerated family; the random records on top of it are sampled
 
